@@ -9,30 +9,37 @@ _TB = [
 ENTRY = dict(
     level="proof",
     level_text=(
-        "PARTIAL. Lean 4 theorems over a small-step port of ProcessSet (StartAll's start-then-register loop, one watcher "
-        "per member with its subscription position relative to the member's trace stream, the wait group, the closing "
-        "goroutine every WaitUntilComplete call spawns, the run loop with Go's select between a throw message and the closed "
-        "done channel, the catch registry and its wake-up goroutines), for every set (any number of executable / waiting "
-        "processes, any trace streams, any message flows) and every schedule of any length. Proved for all facts: a wait "
-        "returns true only when every member registered with the wait group before the close has emitted its cease-flow "
-        "trace; at most one CeaseProcessSetTrace, exactly one once done is closed and the set is quiescent; a throw message "
-        "is turned into at most one instantiation / wake-up; members emit exactly their own stream. Proved under extracted "
-        "facts, as dichotomies with kernel-checked witness schedules on the other side: completion is reported however "
-        "quickly members finish IFF the watcher subscribes before the start (fact false on the current tree: fast-process-"
-        "missed witness, re-observed on the engine with an enforced schedule); repeated / concurrent waits never panic IFF "
-        "the close of done is guarded (false on the current tree: double-close witnesses, re-observed as a crash of a "
-        "grandchild process). Refuted for every value of the facts (structural, recorded as a known finding): the set can be "
-        "reported complete while a message flow is still being delivered, and run may drop a pending message at completion."),
+        "PARTIAL. Lean 4 theorems over a small-step port of ProcessSet (StartAll's start/register loop, one watcher per member "
+        "with its subscription position relative to the member's trace stream, the wait group, the closing goroutine every "
+        "WaitUntilComplete call spawns, the run loop with Go's select between a throw message and the closed done channel, the "
+        "catch registry and its wake-up goroutines), for every set (any number of executable / waiting processes, any trace "
+        "streams, any message flows) and every schedule of any length; five extracted facts (subscription before start and "
+        "wg.Add before start at both sites, guarded close). Proved for all facts: a wait returns true only when every member "
+        "registered with the wait group before the close has emitted its cease-flow trace, and - when no call precedes the "
+        "return of StartAll - only when every executable process has been started and has completed; at most one "
+        "CeaseProcessSetTrace, exactly one once done is closed and the set is quiescent; every emitted throw is accounted "
+        "for exactly once (instantiated / woken / dropped / in transit / missed), so none is delivered twice, and the "
+        "members instantiated for a throw event are exactly run's instantiations; the executable processes are started in "
+        "order and every member emits the stream of its own process; a pending wake-up goroutine always belongs to a member "
+        "still waiting at its catch event. Proved under extracted facts, as dichotomies with kernel-checked witness schedules "
+        "on the other side: completion is reported however quickly members finish, and every throw is handled while run is in "
+        "its loop, IFF the watchers subscribe before the start (false on the current tree: fast-process-missed witnesses, "
+        "re-observed on the engine under enforced schedules); repeated / concurrent waits never panic IFF the close of done "
+        "is guarded (false on the current tree: double-close witnesses, re-observed as a crash of a grandchild process). "
+        "Refuted for every value of the facts (C18_not_holds; structural, known finding): the set can be reported complete "
+        "while a message flow is still being delivered, and run may drop a pending message at completion."),
     level_note=(
-        "full strength (all facts): set_complete_sound, cease_set_once, message_flow_once (at most once), "
-        "member_behaves_alone. under facts: set_complete_live (watcherSubscribesBeforeStart, "
-        "instWatcherSubscribesBeforeStart), set_wait_reentrant (doneClosedOnce). witnesses: C18_counterexample_"
-        "fast_process_missed / _fast_instance_missed / _double_close / _double_close_concurrent / "
-        "_complete_before_instantiated / _message_lost_at_completion. tested only: the tie between model and engine "
-        "(recorded histories accepted by the model at the extracted facts, with a search over the unobservable "
-        "subscription positions), each member behaving as it does alone (multiset of its traces in the set = alone). "
-        "modelled, not proved: member processes as abstract trace streams, ps.mch unbounded, no context cancellation, "
-        "sync.WaitGroup misuse panics"),
+        "full strength (all facts, all sets, all schedules): set_complete_sound, set_complete_sound_exec, cease_set_once, "
+        "message_flow_once, member_behaves_alone. under facts: set_complete_live and message_flow_live "
+        "(watcherSubscribesBeforeStart, instWatcherSubscribesBeforeStart), set_wait_reentrant (doneClosedOnce); C18_partial "
+        "= the statement with clause (1) restricted to members registered before the close and the liveness half of clause "
+        "(5) restricted to states where run is in its loop. witnesses (decide): C18_counterexample_fast_process_missed / "
+        "_fast_instance_missed / _double_close / _double_close_concurrent / _complete_before_instantiated / "
+        "_message_lost_at_completion; C18_not_holds. tested only: the tie between model and engine (recorded histories "
+        "accepted by the model at the extracted facts, with a search over the unobservable subscription positions and run's "
+        "promptness), each member behaving as it does alone at the level of real traces (multiset of its traces in the set = "
+        "alone). modelled, not proved: member processes as abstract trace streams, ps.mch and the subscription channel "
+        "unbounded, no context cancellation, sync.WaitGroup misuse panics, liveness as quiescence (a fair scheduler is assumed)"),
     technique=("Lean 4 proof (inductive invariants over a small-step concurrent machine; decide-checked witness schedules; "
                "fact-selected dichotomies) + trace acceptance of real process-set runs (enforced schedules at the verifhook "
                "points, crash observed in a grandchild process)"),
